@@ -8,8 +8,10 @@
 mod checks;
 mod engine;
 mod gdsref;
+mod gen_conv;
 mod gen_gds;
 mod gen_nlib;
+mod hashseed;
 mod rng;
 mod simio;
 
@@ -87,6 +89,7 @@ fn main() {
             }
         }
         "selftest" => selftest(&args),
+        "c20-child" => checks::c20::child_main(&args),
         _ => {
             eprintln!("unknown command");
             2
@@ -128,6 +131,20 @@ fn selftest(args: &[String]) -> i32 {
             } else {
                 println!("selftest determinism: ok");
                 0
+            }
+        }
+        "hashseed" => {
+            let a = hashseed::with_hash_seed(1, hashseed::order_probe).unwrap();
+            let a2 = hashseed::with_hash_seed(1, hashseed::order_probe).unwrap();
+            let b = hashseed::with_hash_seed(2, hashseed::order_probe).unwrap();
+            let c = hashseed::with_hash_seed(3, hashseed::order_probe).unwrap();
+            println!("seed1 {:?}\nseed1 {:?}\nseed2 {:?}\nseed3 {:?}\ngetrandom calls {}", a, a2, b, c, hashseed::calls());
+            if a == a2 && (a != b || a != c) && hashseed::calls() > 0 {
+                println!("selftest hashseed: ok");
+                0
+            } else {
+                println!("selftest hashseed: SEAM NOT EFFECTIVE");
+                2
             }
         }
         _ => {
